@@ -30,31 +30,35 @@ SUPER = {"pendulum.Interval": "pendulum.Duration", "Interval": "Duration"}
 
 
 def ladder(m: core.Mod, qual: str) -> list[tuple[str, str, dict[str, str] | str]]:
-    """[(class tested | 'plain', method called, {kw: expr} | '**expr')] in test order."""
+    """[(operand kind: 'pendulum.Interval' | 'pendulum.Duration' | 'plain', method called, {kw: expr} | '**expr')]: what the helper
+    calls for an operand of exactly that kind, read off the leaves of the function (pvs/sem.py: the way the branches are
+    written - elif ladder, early returns, a helper building the keyword mapping - does not matter); arguments equal to the
+    0 default of add()/subtract() are left out."""
+    from .. import sem
     fn = m.func(qual)
     dp = core.params(fn)[0]
+    try:
+        arms = sem.call_arms(m, qual)
+    except sem.Giveup as e:
+        raise core.Unsupported(f"{qual}: {e}")
     out = []
-    for p in cfg.paths(fn):
-        ex = p.exit()
-        if ex[1] != "return":
+    for kind, assign in (("pendulum.Interval", {"Interval": True, "Duration": True}), ("pendulum.Duration", {"Interval": False, "Duration": True}),
+                         ("plain", {"Interval": False, "Duration": False})):
+        want = {f"isinstance({dp}, {c})": v for c, v in assign.items()}
+        hit = [a for a in arms if sem.conds_compatible(a[0], want)]
+        if not hit:
             continue
-        pos = [t for t, pol in p.assumes() if pol and t.startswith("isinstance(")]
-        klass = "plain"
-        if pos:
-            c = ast.parse(pos[-1], mode="eval").body
-            klass = un(c.args[1])
-        ret = core.strip_casts(ex[2].value)
-        if not isinstance(ret, ast.Call):
-            raise core.Unsupported(f"{qual}: arm returns `{un(ret)[:60]}`")
-        sk = core.star_kw(ret)
-        if sk:
-            args: dict[str, str] | str = "**" + nun(sk[0])
+        if len(hit) > 1:
+            raise core.Unsupported(f"{qual}: {len(hit)} outcomes for a {kind} operand (conditions other than the operand's class)")
+        _, callee, kws, star = hit[0]
+        kws = {k: v for k, v in kws.items() if v != "0"}
+        if star is not None and not kws:
+            args: dict[str, str] | str = "**" + star
         else:
-            args = {k: nun(v) for k, v in core.kw(ret).items()}
-            for i_, a_ in enumerate(ret.args):
-                args[f"<positional {i_}>"] = nun(a_)
-        out.append((klass, nun(ret.func), args))
-    _ = dp
+            args = dict(kws)
+            if star is not None:
+                args["**"] = star
+        out.append((kind, callee, args))
     return out
 
 
@@ -161,6 +165,13 @@ def _init_complete(ctx) -> None:
         for n in core.walk_fn(fn):
             if isinstance(n, ast.Attribute) and nun(n.value) == dp and n.attr.startswith("_") and not n.attr.startswith("__"):
                 private.add(n.attr)
+        try:        # ... and the ones a helper of the function reads for it (seen in the outcomes of the function)
+            import re as _re
+            for _, _, args in ladder(m, q):
+                for txt in ([args] if isinstance(args, str) else args.values()):
+                    private.update(_re.findall(rf"\b{dp}\.(_[A-Za-z]\w*)", txt))
+        except core.Unsupported:
+            pass
     ctx.count("private_attrs_read", len(private))
     for cls, home in (("Duration", dm), ("AbsoluteDuration", dm), ("Interval", pmod("interval"))):
         if "__new__" not in home.methods(cls):
